@@ -330,6 +330,14 @@ let run (op : string) (args : sx list) : sx =
               (fun l -> ask_opt "ssh_parse" [sb l])
               (fun l -> bool_of (ask "ssh_key_type_ok" [sb l])) t
         | k -> failwith ("keyfile kind " ^ k))
+  | "idfile", [text; dl] ->
+      let d = (match dl with A ":nil" -> None | x -> Some (n_of_int (int_of x))) in
+      (match idfile (bytes_of text) d with
+       | None -> A ":readerr"
+       | Some (IFEncrypted a) -> L [A ":encrypted"; A (if a then ":armored" else ":binary")]
+       | Some IFPem -> A ":pem"
+       | Some IFTooLong -> A ":toolong"
+       | Some (IFText r) -> L [A ":text"; kf_sx r])
   | "scan_lines", [text] -> L (List.map sb (scan_lines (bytes_of text)))
   (* plugin client *)
   | "plugin_recipient", [u; as_id; enc; grease; fk; out] ->
